@@ -442,10 +442,20 @@ func ruleTrapFilterUsesCallerTraps(w *World, r *RuleResult) {
 		}
 		var stores []string
 		if _, edited := ci.Consts["Traps"]; edited {
-			stores = append(stores, w.instrPos(ci.Call)+" (inside the constructor)")
+			if ci.Call != nil {
+				stores = append(stores, w.instrPos(ci.Call)+" (inside the constructor)")
+			} else {
+				stores = append(stores, w.instrPos(ci.Alloc)+" (in the literal)")
+			}
 		}
 		for _, st := range storesIn(f) {
 			if fa, ok := st.Addr.(*ssa.FieldAddr); ok && basePtr(fa.X) == base && w.exprOf(f, st.Addr).Name == "Traps" {
+				// the literal's own `Traps: c.Traps` is the copy, not an edit
+				if ld, isLd := st.Val.(*ssa.UnOp); isLd && ld.Op.String() == "*" {
+					if sfa, isS := ld.X.(*ssa.FieldAddr); isS && w.exprOf(f, ld.X).Name == "Traps" && basePtr(sfa.X) == basePtr(ci.Src) {
+						continue
+					}
+				}
 				stores = append(stores, w.instrPos(st))
 			}
 		}
